@@ -32,7 +32,7 @@ ASSUMPTIONS = [
     "Python side of the protocol only: go/naive and go/eudoxia/types.go cannot be executed here (no Go toolchain); JSON tags parsed from types.go are compared with observed payload keys and reported, without affecting the verdict",
     "container current_memory_gb is observed usage, not a resource need, and is allowed in payloads",
     "the payload's tick is 1-based today; only strict monotonicity and a constant offset from the simulator tick are required",
-    "idle-call spacing is judged with one tick of slack for float arithmetic",
+    "idle-call spacing is judged exactly (1e-9 relative slack for float arithmetic): two idle calls are at least rest_poll_interval of simulated time apart",
 ]
 NSHARDS = {"quick": 16, "thorough": 16}
 N = {"quick": 7, "thorough": 120}
@@ -63,8 +63,10 @@ def cases(tier, seed, shard, nshards):
             arrivals.setdefault(str(t), []).append(
                 gen.simple_pipeline(rng, f"p{j}", tps, nops=rng.choice([1, 2, 3, 5]), mode="safe", cpus_hint=rng.choice([1, 2]),
                                     mem_ref=ram * rng.choice([0.02, 0.1, 0.3, 0.7]), maxn=rng.choice([2, 5])))
-        poll = rng.choice(["zero", "tick", "second", "never"])
-        interval = {"zero": 0.0, "tick": 1.0 / tps, "second": 1.0, "never": 10.0 * ticks / tps}[poll]
+        poll = rng.choice(["zero", "tick", "second", "never", "frac", "frac", "float"])
+        interval = {"zero": 0.0, "tick": 1.0 / tps, "second": 1.0, "never": 10.0 * ticks / tps,
+                    "frac": (rng.randint(1, 6) + rng.choice([0.25, 0.5, 0.75])) / tps,
+                    "float": rng.choice([0.29, 0.57, 1.13, 0.07]) * (100.0 / tps)}[poll]
         yield {"kind": "rest", "policy": rng.choice(["naive", "random", "random", "pack"]), "policy_seed": rng.getrandbits(32),
                "params": {"duration": ticks / tps, "ticks_per_second": tps, "num_pools": pools, "cpus_per_pool": cpus,
                           "ram_gb_per_pool": ram, "multi_operator_containers": True, "rest_poll_interval": interval,
@@ -470,7 +472,7 @@ def run_rest(case, mon):
         if t in called and not need:
             mon.count("requests_idle")
             ref = prev_call if prev_call is not None else -1
-            if (t - ref) < interval_ticks - 1:
+            if (t - ref) < interval_ticks * (1 - 1e-9) - 1e-9:
                 mon.fail("idle-call-too-early", f"idle call at tick {t}, previous call at tick {ref}, poll interval {interval_ticks} ticks")
                 break
         if t in called:
